@@ -165,6 +165,9 @@ func CheckMain(args []string) int {
 		for _, ud := range u.Undecided {
 			undecided = append(undecided, u.Name+": "+ud)
 		}
+		for _, ud := range u.UndecidedGoals {
+			undecided = append(undecided, u.Name+": "+ud)
+		}
 		// a unit that fell outside the subset midway keeps no obligations: its partial
 		// encoding proves nothing
 		if len(u.Undecided) > 0 {
